@@ -229,7 +229,8 @@ func c08HeaderShapes() []c08hshape {
 		{name: "integer", schema: gen.S{"type": "integer", "minimum": 1.0, "maximum": 9.0}, good: []string{"1", "9"}, bad: []string{"0", "10"}, junk: []string{"abc"}},
 		{name: "string-enum", schema: gen.S{"type": "string", "enum": gen.Arr("a", "b")}, good: []string{"a"}, bad: []string{"c"}},
 		{name: "boolean", schema: gen.S{"type": "boolean"}, good: []string{"true", "false"}, junk: []string{"maybe"}},
-		{name: "array-integer", schema: gen.S{"type": "array", "items": gen.S{"type": "integer"}, "maxItems": 2.0}, good: []string{"1", "1,2"}, bad: []string{"1,2,3"}, junk: []string{"1,x"}},
+		// ("\n" separates field lines: several lines of one name are one comma separated list, RFC 9110 5.3)
+		{name: "array-integer", schema: gen.S{"type": "array", "items": gen.S{"type": "integer"}, "maxItems": 2.0}, good: []string{"1", "1,2", "1\n2"}, bad: []string{"1,2,3", "1\n2\n3", "1,2\n3"}, junk: []string{"1,x", "1\nx"}},
 		// sent with an empty value: no reading of "" is an array of at least one integer
 		{name: "array-integer-min1", schema: gen.S{"type": "array", "items": gen.S{"type": "integer"}, "minItems": 1.0}, good: []string{"1", "1,2"}, bad: []string{""}, junk: []string{"1,x"}},
 		{name: "object", schema: gen.S{"type": "object", "properties": gen.S{"a": gen.S{"type": "integer"}, "b": gen.S{"type": "string"}}, "required": gen.Arr("a")}, good: []string{"a,1", "a,1,b,x"}, bad: []string{"b,x"}, junk: []string{"a,one", "a"}},
@@ -285,10 +286,12 @@ func c08Headers(c *core.Ctx, hi int) {
 				for _, status := range []int{200, 404} {
 					hdr := http.Header{}
 					if cs.val != nil {
-						hdr.Set("X-R", *cs.val)
+						for _, line := range strings.Split(*cs.val, "\n") {
+							hdr.Add("X-R", line)
+						}
 					}
 					hdr.Set("X-Unrelated", "1")
-					desc := fmt.Sprintf("header shape=%s required=%v class=%s value=%v multi=%v status=%d", sh.name, required, cs.class, hdr.Get("X-R"), multi, status)
+					desc := fmt.Sprintf("header shape=%s required=%v class=%s value=%q multi=%v status=%d", sh.name, required, cs.class, hdr.Values("X-R"), multi, status)
 					c.Begin(desc)
 					c.Eval()
 					verr, after, rerr, pi := c08Run(router, "GET", status, hdr, []byte("x"), &openapi3filter.Options{MultiError: multi})
